@@ -61,9 +61,6 @@ impl<'a> StringLexer<'a> {
                     b')' => Some(b')'),
                     b'\n' => {
                         // ignore end-of-line marker
-                        if let Ok(b'\r') = self.peek_byte() {
-                            let _ = self.next_byte();
-                        }
                         self.next_lexeme()?
                     }
                     b'\r' => {
